@@ -11,6 +11,7 @@
 
 using namespace vp;
 using namespace cfgtree;
+using namespace mpt;
 
 static void parse_doc(Ctx &c, const Fmt &f, Flags fl, const std::string &doc, std::vector<Node> &got, const char *which) {
   Source src(doc);
@@ -51,6 +52,7 @@ static void run(Ctx &c) {
   lim.huge_values = c.chance(16);
   if (c.exclude("C09-long-value-refused")) { lim.max_value = 249; lim.huge_values = false; }
   else if (c.exclude("C09-value-length-16bit")) { lim.max_value = 65535; }
+  std::vector<uint8_t> da = deco_bytes(c), db = deco_bytes(c);  // drawn ahead of the tree, which uses up the rest
   TreeGen g(c, f, fl, lim);
   std::vector<Node> tree = g.tree();
   make_expressible(tree, f);
@@ -60,10 +62,13 @@ static void run(Ctx &c) {
   c.logf("tree: %zu nodes, depth %zu", count_nodes(tree), tree_depth(tree));
   log_tree(c, tree);
 
-  Printer pa(c, f, true);
+  Ctx ca(da.data(), da.size(), false), cb(db.data(), db.size(), false);
+  Printer pa(ca, f, !da.empty());
   std::string a = pa.render(tree);
-  Printer pb(c, f, true);
+  Printer pb(cb, f, !db.empty());
   std::string b = pb.render(tree);
+  c.loghex("decoration A", da.data(), std::min<size_t>(da.size(), 16));
+  c.loghex("decoration B", db.data(), std::min<size_t>(db.size(), 16));
   c.logf("rendering A: %s", brief(a, 3000).c_str());
   c.logf("rendering B: %s", brief(b, 3000).c_str());
 
